@@ -2898,6 +2898,7 @@ bn_calc_naf(bn_p bn, size_t wnd_bits, size_t naf_arr_size, int8_t *naf_arr,
 	register bn_digit_t mask;
 	register int8_t itm;
 	register uint8_t sign_bit;
+	bn_digit_t carry;
 
 	if (NULL == bn || 2 > wnd_bits || NULL == naf_arr)
 		return (EINVAL);
@@ -2906,6 +2907,9 @@ bn_calc_naf(bn_p bn, size_t wnd_bits, size_t naf_arr_size, int8_t *naf_arr,
 	mask = ((((bn_digit_t)1) << wnd_bits) - 1);
 	sign_bit = (uint8_t)(((uint8_t)1) << (wnd_bits - 1));
 	BN_RET_ON_ERR(bn_assign_init(&tm, bn));
+	if (BN_MAX_DIGITS > tm.count) { /* Room for carry from add. */
+		tm.count ++;
+	}
 
 	while (0 == bn_is_zero(&tm)) {
 		if (0 != (tm.num[0] & 1)) { /* Is odd? */
@@ -2936,7 +2940,10 @@ bn_calc_naf(bn_p bn, size_t wnd_bits, size_t naf_arr_size, int8_t *naf_arr,
 			}
 #endif
 			if (itm < 0) {
-				bn_add_digit(&tm, (bn_digit_t)-itm, NULL);
+				carry = 0;
+				bn_add_digit(&tm, (bn_digit_t)-itm, &carry);
+				if (0 != carry) /* No room: BN_MAX_DIGITS. */
+					return (EOVERFLOW);
 			} else {
 				bn_sub_digit(&tm, (bn_digit_t)itm, NULL);
 			}
